@@ -15,6 +15,7 @@ TRUSTED = ["modelled, not verified: Comm I/O, ACL tree evaluation around the pro
            "the 407 page and the forwarding path after AUTH_AUTHENTICATED; header parsing and base64 are tied separately (C25/C36)",
            "the harness reads Squid's own debug trace (sections 29/84) to learn when a step has been processed and which requests a helper answer resumed"]
 ASSUMPTIONS = ["Basic is the only configured scheme; casesensitive off; credentialsttl > 0; one helper process with concurrency (answers in any order); "
+               "the helper line `user password extras` fits HELPER_INPUT_BUFFER (8192; the other case is the known finding C46-overlong-credentials-left-pending); "
                "honest helper (its verdict is a function of the user/password line it receives); no max_user_ip, no external ACLs"]
 MANIFEST = {
     "engine": "e2e",
@@ -38,6 +39,7 @@ MINIMISE_BUDGET = 24
 MAX_REPORT = 4
 
 FINDING = "C46-basic-shared-record-race"
+FINDING_LONG = "C46-overlong-credentials-left-pending"
 
 
 # ------------------------------------------------------------------------------------------------- harness
@@ -425,6 +427,8 @@ def race_region(line, impl):
                 mm = re.match(r"sub(\d+):", p)
                 if mm and cr:
                     inflight[int(mm.group(1))] = cr[0]
+                if p == "toolong" and cr:
+                    inflight["toolong%d" % t] = cr[0]     # left Pending for good (the other known finding)
             continue
         m = re.match(r"r(\d+):[oe]\[", tok)
         if m:
@@ -432,15 +436,28 @@ def race_region(line, impl):
     return tainted
 
 
+def overlong(hdr):
+    """the helper line `user password extras` cannot fit HELPER_INPUT_BUFFER (outside the model: ASSUMPTIONS)"""
+    cr = lenient_creds(hdr)
+    return cr is not None and len(cr[0]) + len(cr[1]) >= 8000
+
+
 def classify(line, impl, why):
-    m = re.match(r"request (\d+) was forwarded \(status \d+\) although its credentials are not valid", why or "")
-    if not m or not impl:
+    if not impl or not why:
         return None
     cfg, steps = parse(line)
     hdrs = {s[1]: s[3] for s in steps if s[0] == "a"}
-    cr = lenient_creds(hdrs.get(int(m.group(1))))
-    if cr and cr[0] in race_region(line, impl):
-        return FINDING
+    m = re.match(r"request (\d+) was forwarded \(status \d+\) although its credentials are not valid", why)
+    if m:
+        cr = lenient_creds(hdrs.get(int(m.group(1))))
+        if cr and cr[0] in race_region(line, impl):
+            return FINDING
+        return None
+    m = re.match(r"request (\d+) was never answered although the helper answered every lookup", why)
+    if m:
+        return FINDING_LONG if overlong(hdrs.get(int(m.group(1)))) and "toolong" in impl else None
+    if why == "model and implementation differ" and "toolong" in impl and any(overlong(h) for h in hdrs.values()):
+        return FINDING_LONG
     return None
 
 
